@@ -263,11 +263,15 @@ func runCheck(id, tier string, updateBaseline bool, only string) int {
 	solverTime := 0.0
 	bySolver := map[string]int{}
 	vacuous := 0
+	var knownHit []string
 	failObl := func(name string, o *Obligation, reason string) {
 		// known finding?
 		for _, k := range known.Findings {
 			if k.Property == id && k.Status == "open" && k.Obligation == name {
 				out = append(out, fmt.Sprintf("KNOWN-FINDING: property=%s %s", id, k.What))
+				// a recorded defect is not part of the proof claim: not counted as an obligation
+				nObl--
+				knownHit = append(knownHit, shortKey(name)+": "+k.What)
 				return
 			}
 		}
@@ -403,6 +407,7 @@ func runCheck(id, tier string, updateBaseline bool, only string) int {
 			"samples":                samples,
 			"contract_files":         relFiles(prog.DB.Files),
 			"machinery_errors":       res.machineErr,
+			"known_findings_reported": knownHit,
 		},
 		"assumptions": assumptions,
 		"wall_s":      round2(time.Since(t0).Seconds()),
